@@ -8,5 +8,9 @@ Numbers == {"1", "2", ".", "a", "l", "e", "_"}
 Strings6 == {"\"", "$", "{", "}", "a", "\\", "\n"}
 Escapes == {"\"", "\\", "x", "u", "U", "f", "9", "e", "b", "a", "$", "n", "0"}
 Words == {"a", "s", "i", "f", "n", "l", "e", "r", "t", "u", " ", "S", "o", "_"}
+(* line counting: line breaks, carriage returns and tabs inside and outside string literals and comments *)
+Lines == {"\"", "a", "\n", "\r", "\t", "/", ";"}
+(* escape sequences whose digit window runs into multi-byte characters (2, 3 and 4 bytes) *)
+EscapesU == {"\"", "\\", "x", "u", "f", "é", "€", "😀"}
 Ops2 == {"<", ">", "=", "!", "|", "&", "+", "-", "*", "/", "^", "%", ".", "~", " "}
 =============================================================================
